@@ -186,6 +186,15 @@ def gen_cmds(rng, prog, model):
                 'point': prog.pstr(rng.randint(prog.icp, prog.fcp))}}
         c.update({'iter': it, 'slot': rng.randint(0, 1)})
         cmds.append(c)
+    # (separate stream: leaves the draws below as they were)
+    r2 = random.Random(repr(rng.getstate()[1][:4]))
+    if r2.random() < 0.35:
+        # remove a partially satisfied waiting task: a remaining parent
+        # respawns it with the other prerequisites unsatisfied although
+        # their outputs are in the DB -- a reload must leave them so
+        cmds.append({'name': 'remove_tasks', 'pick': 'pooled_partial',
+                     'u': r2.random(), 'kwargs': {'flow': []},
+                     'iter': max(1, base - r2.randint(1, 8)), 'slot': 0})
     it = base
     paused = False
     if rng.random() < 0.35:
@@ -223,6 +232,22 @@ class Driver(CommandDriver):
                 fh.write(text)
             self.watch.pending_variant = (kind, new)
             return c['kwargs']
+        if c.get('pick') == 'pooled_partial':
+            cand = []
+            for i in h.schd.pool.get_tasks():
+                if i.state.status != 'waiting':
+                    continue
+                vals = [bool(v) for p in i.state.prerequisites
+                        for v in p._satisfied.values()]
+                if any(vals) and not all(vals):
+                    cand.append(i.identity)
+            cand.sort()
+            if not cand:
+                return None
+            self.watch.res.sim.probe('removed_partially_satisfied_task')
+            kw = dict(c['kwargs'])
+            kw['tasks'] = [cand[int(c['u'] * len(cand)) % len(cand)]]
+            return kw
         if c.get('pick') == 'pooled':
             pool = sorted(i.identity for i in h.schd.pool.get_tasks())
             if not pool:
